@@ -266,9 +266,11 @@ varintAdaptiveSelectEncoding(const varintAdaptiveDataStats *stats) {
      * Only use if all values are unique or nearly unique
      * AND data is already sorted (since BITMAP returns values in sorted order)
      */
-    if (stats->fitsInBitmapRange && stats->uniqueRatio > 0.9f &&
-        (stats->isSorted || stats->isReverseSorted)) {
-        /* All or nearly all values are unique - bitmap might work */
+    if (stats->fitsInBitmapRange && stats->isSorted &&
+        stats->uniqueCount == stats->count) {
+        /* Strictly ascending, duplicate free: exactly what a bitmap hands
+         * back. (count < 10000 below also makes uniqueCount exact, not a
+         * sampled estimate.) */
         if (stats->range > 0 && stats->count < 10000) {
             float density = (float)stats->count / (float)stats->range;
             if (density > 0.05f) {
